@@ -12,6 +12,7 @@ import (
 	"math/big"
 	"strconv"
 	"strings"
+	"sync"
 	"time"
 
 	"verifharness/pinned"
@@ -30,14 +31,16 @@ var typeByName = func() map[string]byte {
 }()
 
 var tagName map[uint32]string
+var tagNameOnce sync.Once
 
 func nameOf(tag uint32) (string, bool) {
-	if tagName == nil {
-		tagName = map[uint32]string{}
+	tagNameOnce.Do(func() {
+		m := map[uint32]string{}
 		for n, v := range pinned.Reg().Tags {
-			tagName[uint32(v)] = n
+			m[uint32(v)] = n
 		}
-	}
+		tagName = m
+	})
 	n, ok := tagName[tag]
 	return n, ok
 }
